@@ -607,8 +607,17 @@ pub fn run_history(scn: &Scenario, dir: &Path, hist: &[Ev]) -> Result<(), (usize
 fn run_history_here(scn: &Scenario, dir: &Path, hist: &[Ev]) -> Result<(), (usize, Fail)> {
 	let mut ex = build(scn, dir).map_err(|f| (0, f))?;
 	let mut res = Ok(());
+	let timing = std::env::var("PDBMC_TIMING").is_ok();
 	for (i, e) in hist.iter().enumerate() {
+		let t0 = std::time::Instant::now();
 		if matches!(e, Ev::Stage(St::E)) && ex.enact_would_block() {
+			continue
+		}
+		if timing {
+			let _ = ex.apply(e);
+			let t1 = t0.elapsed();
+			let _ = ex.check_all();
+			eprintln!("event {:<12} apply {:?} check {:?}", e.short().chars().take(12).collect::<String>(), t1, t0.elapsed() - t1);
 			continue
 		}
 		let chk = |ex: &Exec| -> Result<(), Fail> {
